@@ -11,6 +11,7 @@ class SScope:
         self.in_loop = (parent.in_loop if parent and not func else 0) + (1 if loop else 0)
         self.in_func = (parent.in_func if parent else 0) + (1 if func else 0)
         self.all_names = parent.all_names if parent else set()
+        self.all_funcs = parent.all_funcs if parent else {}      # every function ever defined in the program: name -> arity
 
 
 class AstGen:
@@ -19,7 +20,10 @@ class AstGen:
 
     def __init__(self, rnd: random.Random, weights=None, max_depth=4, fresh_prefix='v'):
         self.r = rnd
-        self.w = dict(self.DEFAULT_W); self.w.update(weights or {})
+        weights = dict(weights or {})
+        self.between_p = weights.pop('between_p', 0.15)      # a statement between two arms of a chain
+        self.dead_call_p = weights.pop('dead_call_p', 0.06)  # a call of a function whose defining block has ended
+        self.w = dict(self.DEFAULT_W); self.w.update(weights)
         self.max_depth = max_depth
         self.n = 0
         self.tagn = 0
@@ -27,9 +31,16 @@ class AstGen:
 
     def chance(self, p): return self.r.random() < p
 
+    # identifier shapes a scanner or a cache can get wrong: no letter at all, one character, mixed case, names that are prefixes
+    # of one another (names beginning with T or F are left out: the recorded finding D14)
+    ODD_NAMES = ['_', '_1', '__', '_9x', 'n', 'nn', 'nnn', 'a', 'ab', 'abc', 'I', 'l1', 'O0', 'x_', 'Ab', 'aB9', 'zz_top', 'e', 'E2', 'q']
+
     def fresh(self, sc, p=None):
         self.n += 1
         nm = f'{p or self.fresh_prefix}{self.n}'
+        if self.chance(0.2):
+            pool = [x for x in self.ODD_NAMES if x not in sc.all_names]
+            if pool: nm = self.r.choice(pool)
         sc.all_names.add(nm)
         return nm
 
@@ -70,7 +81,7 @@ class AstGen:
         if depth >= self.max_depth:
             for k in ('ifchain', 'repeat', 'whil', 'func'): w[k] = 0
         if not sc.in_loop: w['brk'] = 0
-        if not sc.funcs or sc.in_func: w['call'] = 0
+        if (not sc.funcs and not (set(sc.all_funcs) - set(sc.funcs))) or sc.in_func: w['call'] = 0
         if sc.in_func or depth > 1: w['func'] = 0
         if not sc.vars: w['exist'] = w['exist'] * 0.3
         kinds = [k for k in w if w[k] > 0]
@@ -87,7 +98,7 @@ class AstGen:
             arms = []; between = []
             for i in range(r.choice([1, 1, 2, 2, 3, 4])):
                 arms.append((self.cond(sc), self.body(SScope(sc), depth + 1, budget)))
-                between.append([Emit(self.tag())] if self.chance(0.12) else [])
+                between.append(self.between(sc, depth, budget) if self.chance(self.between_p) else [])
             els = self.body(SScope(sc), depth + 1, budget) if self.chance(0.5) else None
             if els is None: between[-1] = []
             return IfChain(arms, els, between)
@@ -126,8 +137,14 @@ class AstGen:
                 for _ in range(r.choice([0, 1, 2])): st = IfChain([(self.cond(s2), [st])], None, [[]])
                 body.insert(pos, st)
             sc.funcs[nm] = ar
+            sc.all_funcs[nm] = ar
             return FuncDef(nm, ps, body)
         if k == 'call':
+            dead = sorted(set(sc.all_funcs) - set(sc.funcs))
+            if dead and self.chance(self.dead_call_p):      # a function defined in a block that has ended: not visible any more
+                nm = r.choice(dead)
+                return Call(nm, [self.int_expr(sc, 1) for _ in range(sc.all_funcs[nm])])
+            if not sc.funcs: return Pass()
             nm = r.choice(sorted(sc.funcs))
             return Call(nm, [self.int_expr(sc, 1) for _ in range(sc.funcs[nm])])
         if k == 'ret':
@@ -141,6 +158,22 @@ class AstGen:
             if dead and self.chance(0.7): return Exist(r.choice(dead), neg=True)
             return Exist(self.fresh(sc, 'zz'), neg=True)
         return Pass()
+
+    def between(self, sc, depth, budget):
+        """a statement standing between two arms of a chain (in the chain's own block): it must leave the chain alone whatever
+        chains run inside it — a loop or a call whose body takes a branch of its own, an assignment, an output line"""
+        r = self.r
+        k = r.choice(['emit', 'assign', 'loop', 'loop', 'call'])
+        if k == 'emit' or depth >= self.max_depth: return [Emit(self.tag())]
+        if k == 'assign':
+            nm = r.choice(sorted(sc.vars)) if sc.vars and self.chance(0.6) else self.fresh(sc)
+            st = Assign(nm, self.int_expr(sc)); sc.vars.add(nm)
+            return [st]
+        inner = IfChain([(Lit(r.choice([True, True, False])), [Emit(self.tag())])], [Emit(self.tag())] if self.chance(0.5) else None, [[]])
+        if k == 'call' and sc.funcs and not sc.in_func:
+            nm = r.choice(sorted(sc.funcs))
+            return [Call(nm, [self.int_expr(sc, 1) for _ in range(sc.funcs[nm])])]
+        return [Repeat(Lit(r.choice([1, 2])), None, [inner], 'REPEAT')]
 
     def program(self, size=14):
         sc = SScope()
